@@ -1,12 +1,12 @@
 (* C14 - WHERE filtering follows SQL three-valued logic.  Property theorems only.
    Reference semantics: Model/SqlSpec.v (eval / sem3 / filter_spec, Kleene logic).
-   Implementation model: Model/PredImpl.v (eval_expr = the bool evaluator of FilterExec,
-   eval_value = evaluate_to_value of the select list, try_fold / fold_iter = ConstantFoldingRule,
-   reparse_bare = the parser's NOT precedence).  Finding classes: Model/PredClass.v. *)
+   Implementation model: Model/PredImpl.v (the repaired tree: eval_expr = eval_tv = Some(true) as
+   used by FilterExec, eval_value = evaluate_to_value of the select list, try_fold / fold_iter =
+   ConstantFoldingRule, like_loop, parser precedence).  Side conditions: Model/PredClass.v
+   (wf_expr: literals the harness can print and non-empty IN lists; plain cells; class 13). *)
 From Coq Require Import ZArith List Bool Permutation.
 From TV Require Import Model.SqlSpec Model.PredImpl Model.PredClass
-  Proof.SqlSpecLaws Proof.PredLike Proof.PredWhere Proof.PredFold Proof.PredSelect Proof.PredRefute
-  Proof.PredFragment.
+  Proof.SqlSpecLaws Proof.PredLike Proof.PredEval Proof.PredFold Proof.PredRefute.
 Import ListNotations.
 Open Scope Z_scope.
 
@@ -30,71 +30,70 @@ Theorem tlp_partition :
     Permutation (filter_spec p t ++ filter_spec (ENot p) t ++ filter_spec (EIsNull false p) t) t.
 Proof. exact SqlSpecLaws.tlp_partition. Qed.
 
-(* ---- the LIKE matcher (greedy loop with one backtrack point) equals the declarative
-        semantics of % and _ unless both the text and the pattern contain a '%' byte *)
-Theorem like_match_spec :
-  forall s q, has_pct s && has_pct q = false -> like_impl s q = Some (like_spec q s).
+(* ---- the LIKE matcher (greedy loop with one backtrack point) equals the declarative semantics
+        of % and _ for every text and pattern *)
+Theorem like_match_spec : forall s q, like_impl s q = Some (like_spec q s).
 Proof. exact like_impl_correct. Qed.
 
-(* ---- FilterExec keeps a row iff the predicate is TRUE: for every expression and row outside
-        the recorded finding classes, wherever the reference semantics is defined *)
+(* ---- FilterExec keeps a row iff the predicate is TRUE under three-valued logic: every
+        well-formed expression (NOT, AND, OR, comparisons, [NOT] IN, [NOT] BETWEEN, [NOT] LIKE,
+        IS [NOT] NULL, predicates as operands, integer arithmetic), every row of plain cells, wherever the
+        reference semantics is defined *)
 Theorem filter_correct :
-  forall e r t, cls_p e r = 0 -> sem3 e r = Some t -> eval_expr e r = Ok (tv_is_true t).
-Proof. exact where_row_correct. Qed.
-
-(* ---- a purely syntactic fragment (Proof/PredFragment.frag: AND / OR over comparisons with <, >, <>
-        or a non-NULL literal side, IS [NOT] NULL, IN over text literals, BETWEEN, LIKE without
-        '%') on which the filter is right for every row of BIGINT / DOUBLE / TEXT cells, NULLs
-        included *)
-Theorem filter_correct_fragment :
-  forall e r t, frag e = true -> plain_row r = true -> sem3 e r = Some t ->
+  forall e r t, wf_expr e = true -> plain_row r = true -> cls13 e r = 0 -> sem3 e r = Some t ->
     eval_expr e r = Ok (tv_is_true t).
-Proof. exact PredFragment.filter_correct_fragment. Qed.
+Proof. exact eval_expr_correct. Qed.
 
-(* ---- the whole statement SELECT * FROM t WHERE e (parser precedence, constant folding,
-        row-by-row filtering) returns exactly the rows on which e is TRUE *)
+(* ---- the select list evaluates to the same TRUE / FALSE / NULL *)
+Theorem select_value_correct :
+  forall e r t, wf_expr e = true -> plain_row r = true -> cls13 e r = 0 -> sem3 e r = Some t ->
+    exists o, eval_value e r = Ok o /\ code_of o = code_of_tv (Some t).
+Proof. exact eval_value_correct. Qed.
+
+(* ---- the whole statement SELECT * FROM t WHERE e (parser in either printing style, constant
+        folding, row-by-row filtering) returns exactly the rows on which e is TRUE *)
 Theorem where_correct :
   forall sty e t, cls_where sty e t = 0 -> defined_on e t = true ->
     model_where (parsed sty e) t = MOut (QRows (spec_rows e t)).
-Proof. exact PredSelect.where_correct. Qed.
+Proof. exact where_query_correct. Qed.
 
-(* ---- select list: evaluate_to_value yields the reference TRUE / FALSE (outside the classes no
-        sub-predicate is UNKNOWN on the row) *)
-Theorem select_value_correct :
-  forall e r t, cls_s e r = 0 -> sem3 e r = Some t ->
-    t <> UU /\ eval_value e r = Ok (Some (ib (tv_is_true t))).
-Proof. exact select_row_correct. Qed.
-
+(* ---- ... and SELECT id, (e) FROM t yields the reference TRUE / FALSE / NULL on every row *)
 Theorem select_correct :
   forall sty e t, cls_select sty e t = 0 -> defined_on e t = true ->
     model_select (parsed sty e) t = MOut (QVals (spec_vals e t)).
-Proof. exact PredSelect.select_correct. Qed.
+Proof. exact select_query_correct. Qed.
 
-(* ---- none of the class hypotheses can be dropped: each recorded class contains a query on which
-        the faithful model of the code contradicts the reference (the witnesses of
-        known_findings.d/C14.json, re-run on the real Database by every check) *)
-Theorem known_classes_refuted :
-  (exists e t, where_wrong 0 1 e t) /\ (exists e t, where_wrong 0 2 e t) /\
-  (exists e t, where_wrong 0 3 e t) /\ (exists e t, where_wrong 0 4 e t) /\
-  (exists e t, where_wrong 0 5 e t) /\ (exists e t, select_wrong 0 6 e t) /\
-  (exists e t, where_wrong 0 7 e t) /\ (exists e t, where_wrong 0 8 e t) /\
-  (exists e t, where_wrong 0 9 e t) /\ (exists e t, where_wrong 0 10 e t) /\
-  (exists e t, where_wrong 0 11 e t) /\ (exists e t, where_wrong 1 12 e t).
-Proof. exact PredRefute.known_classes_refuted. Qed.
+(* ---- the remaining class hypothesis cannot be dropped: a BETWEEN bound that is arithmetic over
+        NULL (witness of the open finding F-C14-13, re-run on the real Database by every check) *)
+Theorem class13_refuted : where_wrong 0 13 e13 T13.
+Proof. exact PredRefute.class13_refuted. Qed.
 
-(* ---- non-vacuity: queries over a table with NULLs that are outside every class, defined, and
-        keep some rows and drop others (so the hypotheses of where_correct / select_correct are
-        satisfiable by interesting inputs) *)
+(* ---- non-vacuity: the witnesses of the twelve repaired findings are inside the hypotheses of
+        where_correct / select_correct, and so are queries with NOT, negated forms and NULLs that
+        keep some rows and drop others *)
+Example c14_repaired_witnesses :
+  where_right 0 (ENot c1_eq_1) T3 /\
+  where_right 0 (ECmp CEq (ECol 1) (ELit VNull)) T3 /\
+  where_right 0 (EIn false (ECol 1) [ELit (VInt 1); ELit VNull]) T3 /\
+  where_right 0 (EIn true (ECol 1) [ELit (VInt 2); ELit VNull]) T3 /\
+  where_right 0 (EIsNull false c1_eq_1) T3 /\
+  select_right 0 c1_eq_1 T3 /\
+  where_right 0 (ECmp CNe (ELit VNull) (ELit (VInt 1))) T3 /\
+  where_right 0 (EAnd c1_eq_1 (ELit (VBool false))) T3 /\
+  where_right 0 (ELike false (ECol 1) (ELit (VText [37; 97])))
+    [[VInt 1; VText [37; 98; 97]]; [VInt 2; VText [98; 97]]] /\
+  where_right 0 (EIn false (ECol 1) [ELit (VFloat 0)])
+    [[VInt 1; VFloat 4352464011485697175]; [VInt 2; VFloat 0]] /\
+  where_right 0 (ECmp CGt (ECol 1) (ELit (VInt (-9223372036854775808))))
+    [[VInt 1; VInt 0]; [VInt 2; VInt (-5)]] /\
+  where_right 1 (ENot c1_eq_1) T3.
+Proof. exact repaired_witnesses. Qed.
 Example c14_witness :
-  cls_where 0 good1 T3 = 0 /\ defined_on good1 T3 = true /\ spec_rows good1 T3 = [1; 0; 1] /\
-  cls_where 0 good2 T3 = 0 /\ defined_on good2 T3 = true /\ spec_rows good2 T3 = [1; 1; 0] /\
-  cls_select 0 (EIsNull true (ECol 1)) T3 = 0 /\ spec_vals (EIsNull true (ECol 1)) T3 = [1; 1; 0].
+  cls_where 0 good1 T3 = 0 /\ defined_on good1 T3 = true /\ spec_rows good1 T3 = [0; 1; 1] /\
+  spec_vals good1 T3 = [0; 1; 1] /\
+  cls_where 0 good2 T3 = 0 /\ defined_on good2 T3 = true /\ spec_rows good2 T3 = [1; 0; 0] /\
+  spec_vals good2 T3 = [1; 2; 2].
 Proof. exact good_examples. Qed.
-Example c14_fragment_witness :
-  frag good1 = true /\ forallb plain_row T3 = true /\
-  map (sem3 good1) T3 = [Some TT; Some FF; Some TT] /\
-  map (sem3 (ECmp CLt (ECol 1) (ELit (VInt 2)))) T3 = [Some TT; Some FF; Some UU].
-Proof. vm_compute. repeat split. Qed.
 
 Check sem3_laws :
   (forall a r, sem3 (ENot (ENot a)) r = sem3 a r) /\
@@ -106,30 +105,22 @@ Check sem3_laws :
   (forall a b c r, sem3 (EOr a (EOr b c)) r = sem3 (EOr (EOr a b) c) r).
 Check tlp_partition : forall p t, defined_on p t = true ->
     Permutation (filter_spec p t ++ filter_spec (ENot p) t ++ filter_spec (EIsNull false p) t) t.
-Check like_match_spec : forall s q, has_pct s && has_pct q = false -> like_impl s q = Some (like_spec q s).
-Check filter_correct : forall e r t, cls_p e r = 0 -> sem3 e r = Some t -> eval_expr e r = Ok (tv_is_true t).
-Check filter_correct_fragment : forall e r t, frag e = true -> plain_row r = true -> sem3 e r = Some t ->
-    eval_expr e r = Ok (tv_is_true t).
+Check like_match_spec : forall s q, like_impl s q = Some (like_spec q s).
+Check filter_correct : forall e r t, wf_expr e = true -> plain_row r = true -> cls13 e r = 0 ->
+    sem3 e r = Some t -> eval_expr e r = Ok (tv_is_true t).
+Check select_value_correct : forall e r t, wf_expr e = true -> plain_row r = true -> cls13 e r = 0 ->
+    sem3 e r = Some t -> exists o, eval_value e r = Ok o /\ code_of o = code_of_tv (Some t).
 Check where_correct : forall sty e t, cls_where sty e t = 0 -> defined_on e t = true ->
     model_where (parsed sty e) t = MOut (QRows (spec_rows e t)).
-Check select_value_correct : forall e r t, cls_s e r = 0 -> sem3 e r = Some t ->
-    t <> UU /\ eval_value e r = Ok (Some (ib (tv_is_true t))).
 Check select_correct : forall sty e t, cls_select sty e t = 0 -> defined_on e t = true ->
     model_select (parsed sty e) t = MOut (QVals (spec_vals e t)).
-Check known_classes_refuted :
-  (exists e t, where_wrong 0 1 e t) /\ (exists e t, where_wrong 0 2 e t) /\
-  (exists e t, where_wrong 0 3 e t) /\ (exists e t, where_wrong 0 4 e t) /\
-  (exists e t, where_wrong 0 5 e t) /\ (exists e t, select_wrong 0 6 e t) /\
-  (exists e t, where_wrong 0 7 e t) /\ (exists e t, where_wrong 0 8 e t) /\
-  (exists e t, where_wrong 0 9 e t) /\ (exists e t, where_wrong 0 10 e t) /\
-  (exists e t, where_wrong 0 11 e t) /\ (exists e t, where_wrong 1 12 e t).
+Check class13_refuted : where_wrong 0 13 e13 T13.
 
 Print Assumptions sem3_laws.
 Print Assumptions tlp_partition.
 Print Assumptions like_match_spec.
 Print Assumptions filter_correct.
-Print Assumptions filter_correct_fragment.
-Print Assumptions where_correct.
 Print Assumptions select_value_correct.
+Print Assumptions where_correct.
 Print Assumptions select_correct.
-Print Assumptions known_classes_refuted.
+Print Assumptions class13_refuted.
